@@ -795,7 +795,7 @@ func Generate(seed int64, name string, o GenOpts) *Spec {
 	if o.Hostile {
 		g.hostileDecls()
 	}
-	if !o.Static && !o.Wire && r.Intn(5) == 0 && !strings.Contains(s.ExtraDecl, " ctx ") && !strings.Contains(s.ExtraDecl, " ctx(") && !g.names["ctx"] {
+	if !o.Static && !o.Wire && r.Intn(5) == 0 && !strings.Contains(s.ExtraDecl+s.GeneratedDecl, " ctx ") && !strings.Contains(s.ExtraDecl+s.GeneratedDecl, " ctx(") && !g.names["ctx"] {
 		// the user package owns a package-level ctx of type context.Context:
 		// generated code that spells "ctx" literally would still compile
 		s.ExtraDecl += "var ctx = context.Background()\n"
